@@ -8,3 +8,4 @@ import NostrRelay.Props.C18
 import NostrRelay.Props.C20
 import NostrRelay.Props.C10
 import NostrRelay.Props.C01
+import NostrRelay.Props.C02
